@@ -338,7 +338,7 @@ def crash_oracle(case_text, real_lines):
         a = next((l for l in bl if l.startswith("A ")), None)
         if a is None:
             fails.append(("nofail", k, "no status line")); continue
-        acked = int(a.split("acked=")[1])
+        acked = int(a.split("acked=")[1].split()[0])
         # expected states
         spec = Spec(cfg["kt"])
         for l in ops[:acked]:
@@ -818,4 +818,94 @@ def race_oracle(case_text, real_lines):
             exp = f"winners={0 if live() else 1} already={n if live() else n - 1} other=0"
             if r != exp:
                 fails.append(("exclusive", f"event {i} `{' '.join(e)}` gave `{r}`, expected `{exp}`"))
+    return fails
+
+
+# ---------------------------------------------------------------------------------------------
+# orphan scan / clean-up oracle (C08) on plain-mode lines with planted garbage
+
+def orphan_oracle(case_text, real_lines):
+    """after every `open`: the reported lists equal what the directory listing (O F lines of the obs
+    block BEFORE the open... we use the obs block right after the open, nothing changes in between)
+    and the spec map imply; after `delorphans`: only referenced blobs remain, staging empty.
+    tags: scan_exact cleanup_complete cleanup_harmful"""
+    fails = []
+    lines = [l for l in case_text.splitlines() if l and not l.startswith(("case ", "end"))]
+    cfg = case_cfg(lines)
+    spec = Spec(cfg["kt"])
+    results = {}
+    for l in real_lines:
+        m = R_RE.match(l)
+        if m:
+            results[int(m.group(1))] = (m.group(2), m.group(3))
+    blocks = []
+    for l in real_lines:
+        if l.startswith(("O entries:", "O closed")):
+            blocks.append([])
+        if l.startswith("O ") and blocks:
+            blocks[-1].append(l)
+    idx, bi = 0, 0
+    pending_open = None
+    last_files = None
+    after_cleanup = False
+    for l in lines:
+        t = l.split()
+        if t[0] in ("cfg", "plant", "mkdir", "fault"):
+            continue
+        if t[0] == "obs":
+            blk = blocks[bi] if bi < len(blocks) else []
+            bi += 1
+            files = {}
+            for x in blk:
+                if x.startswith("O F "):
+                    p = x.split()
+                    files[p[2]] = x
+            cas = sorted(f for f in files if f.startswith("cas/"))
+            stag = sorted(f for f in files if f.startswith("staging/"))
+            refd = set(spec.cas_files())
+            if pending_open is not None:
+                res = pending_open
+                def lst(name):
+                    m = re.search(name + r"=\[([^\]]*)\]", res)
+                    return sorted(x for x in m.group(1).split(",") if x) if m else []
+                canon_blob = lambda f: len(f.split("/")) == 4 and re.fullmatch(r"cas/[0-9a-f]{2}/[0-9a-f]{2}/[0-9a-f]{60}", f)
+                exp_orph = sorted(f.replace("cas/", "").replace("/", "") for f in cas if canon_blob(f) and f not in refd)
+                exp_inv = sorted(f for f in cas if not canon_blob(f))
+                exp_missing = sorted(f.replace("cas/", "").replace("/", "") for f in refd if f not in cas)
+                if lst("orph") != exp_orph:
+                    fails.append(("scan_exact", f"open reported orphans {lst('orph')}, the directory and index imply {exp_orph}"))
+                if lst("invalid") != exp_inv:
+                    fails.append(("scan_exact", f"open reported invalid files {lst('invalid')}, the directory implies {exp_inv}"))
+                if lst("missing") != exp_missing:
+                    fails.append(("scan_exact", f"open reported missing blobs {lst('missing')}, expected {exp_missing}"))
+                if len(lst("staging")) != len(stag):
+                    fails.append(("scan_exact", f"open reported staging files {lst('staging')}, directory has {stag}"))
+                if cfg["verify"] == "1":
+                    exp_cor = sorted(f.replace("cas/", "").replace("/", "") for f in cas if f in refd and files[f].endswith("hash=BAD"))
+                    if lst("corrupted") != exp_cor:
+                        fails.append(("scan_exact", f"open reported corrupted {lst('corrupted')}, expected {exp_cor}"))
+                pending_open = None
+            if after_cleanup:
+                extra = [f for f in cas if f not in refd]
+                gone = [f for f in refd if f not in cas]
+                if extra or stag:
+                    fails.append(("cleanup_complete", f"after clean-up garbage remains: {extra + stag}"))
+                if gone:
+                    fails.append(("cleanup_harmful", f"clean-up removed referenced blobs: {gone}"))
+                after_cleanup = False
+            continue
+        res = results.get(idx); idx += 1
+        r = res[1] if res else ""
+        if t[0] in ("put", "abort", "remove", "remove_range", "checkpoint"):
+            spec.apply(t); pending_open = None
+        elif t[0] == "open":
+            pending_open = r
+        elif t[0] == "delorphans":
+            after_cleanup = True
+            if "err=0" not in r:
+                fails.append(("cleanup_complete", f"delete_orphans reported errors: {r}"))
+        elif t[0] == "get":
+            exp = spec.expect_read(t)
+            if r != exp:
+                fails.append(("cleanup_harmful", f"`{l}` = {r} after clean-up, expected {exp}"))
     return fails
